@@ -1,5 +1,6 @@
 import QV.Model.Decopt
 import QV.Proofs.Decopt
+import QV.Proofs.Decopt2
 /-!
 # C12 – The circuit boolean optimizer returns an equivalent, no larger circuit
 
@@ -13,10 +14,12 @@ amplitude type and every meaning of the gates in which X/CX/CCX/MCX/MCtrl(X) per
 states as `applyClassical` says and `I`/barriers do nothing (all other gates arbitrary), the two
 gate lists send every state to the same state.
 
-`C12_statement` below is the full property of the repaired model.  It is **not proved in full**:
-what is missing is the correctness of the internal compiler on the sections it is given (C02,
-known to be false in general for the compiler as it is).  Proved here, for every circuit, every
-simplifier, every sequence of ancilla choices, every quirk setting:
+`C12_statement` below is the full property of the repaired model.  It is **proved** at the end of
+this file (`C12_full`, `C12_statement_holds`): the missing theorem about the internal compiler is
+`accepted_xonly` (`QV/Proofs/Decopt2.lean`) – a re-synthesis the repaired splice test accepts consists
+of the X gates of the section's self-negations `q = ~q` – and such a splice keeps the action
+(`xonly_splice_ok`).  Proved on the way, for every circuit, every simplifier, every sequence of
+ancilla choices, every quirk setting:
 
 * `splice_equiv` – if every section that is spliced in has the same classical action as the
   gates it replaces (`SectionOK`; decidable per instance: `sectionOKb`, run by the check on
@@ -112,8 +115,8 @@ theorem sectionOK_decidable (n : Nat) (old new : List AGate) :
 
 /-- **C12_partial** (the property per validated instance): for every circuit, every
 re-synthesis function (so every simplifier and every sequence of ancilla choices) and every quirk
-setting, a run all of whose splices pass the validator satisfies the property.  Missing for
-`C12_statement`: that the repaired model's splices always pass (compiler correctness). -/
+setting, a run all of whose splices pass the validator satisfies the property.  That the
+repaired model's splices always pass is `accepted_section_ok` below. -/
 theorem C12_partial (q : Quirks) (K : Kernel) (n : Nat) (resyn : Section → Except String SecResult)
     (gs out : List AGate) (secs : List Section) (hwf : ∀ g ∈ gs, g.wires.Nodup)
     (hdec : decompile q K n gs = .ok secs) (hv : validated q n resyn secs = true)
@@ -280,5 +283,134 @@ theorem splice_rename_violates : ¬ SameUnitary 2 [] swap01 := by
   have := h Bool _ hl (fun b => b == [true, false]) [false, true] rfl
   revert this
   decide
+
+/-! ## the shape of the accepted splices (added after `CompilerInv`/`CompilerSem` and the `renamed` guard) -/
+
+/-- **xonly_splice_ok**: for every section of a decompilation, every sound kernel, every
+meaning-preserving simplifier: if the simplified definitions are all `q = q` or `q = ~q` and the
+re-synthesised gates are the X gates of the self-negations (`xonly`, decidable), the splice is
+`SectionOK` -/
+theorem xonly_splice_ok (simp : BExp → BExp) (hs : SimpSound simp) (K : Kernel) (hK : K.Sound)
+    (K4 : Kernel4) (hK4 : K4.Sound) (q : Quirks) (n : Nat) (gs : List AGate) (secs : List Section)
+    (hdec : decompile q K n gs = .ok secs) (s : Section) (hmem : s ∈ secs) (new : List AGate)
+    (hx : xonly n (simplifySection simp K4 s) new = true) : SectionOK n s.gates new :=
+  xonly_ok hK q n s.gates s.exps (decompile_exps hdec s hmem) (customSimplify simp K4)
+    (fun ρ e => customSimplify_eval hK4 hs ρ e) new hx
+
+/-- **C12_xonly_partial** (the property per run, under the decidable shape predicate): for every
+circuit, simplifier, ancilla choices and quirk setting, a run all of whose accepted splices are
+of the `xonly` shape (`xonlyRun = true`, checked by the harness on every case) satisfies the
+property.  `accepted_xonly` below discharges the hypothesis for the repaired model. -/
+theorem C12_xonly_partial (simp : BExp → BExp) (hs : SimpSound simp) (K : Kernel) (hK : K.Sound)
+    (K4 : Kernel4) (hK4 : K4.Sound) (q : Quirks) (choices : Section → List Nat) (n : Nat)
+    (gs out : List AGate) (secs : List Section) (hwf : ∀ g ∈ gs, g.wires.Nodup)
+    (hdec : decompile q K n gs = .ok secs)
+    (hx : xonlyRun q n (simplifySection simp K4) (resynSection n (simplifySection simp K4) choices) secs = true)
+    (h : optimize q K K4 simp choices n gs = .ok out) : Holds n gs out := by
+  unfold optimize at h
+  refine ⟨splice_equiv q K n _ gs out secs hwf hdec ?_ h, no_larger q K n _ gs out h,
+    same_qubits q K n _ gs out h⟩
+  intro s hmem r hr ha
+  have := List.all_eq_true.mp hx s hmem
+  rw [hr] at this
+  simp only [ha, Bool.not_true, Bool.false_or] at this
+  exact xonly_splice_ok simp hs K hK K4 hK4 q n gs secs hdec s hmem r.gates this
+
+/-- **accepted_xonly** (the theorem about the internal compiler that was missing): for every
+section of a decompilation, every simplifier (sound or not), every sequence of ancilla choices: a
+re-synthesis `exprs_to_quantum(simplified expressions, symbols = q0 … q{n-1})` that the repaired
+splice test accepts – in fact already one whose qubit map still sends every `q{i}` to `i` – is of the
+`xonly` shape: every simplified definition is `q = q` or `q = ~q` and the gates are the X gates of the
+self-negations.  (From `stable_xonly`: the first other definition `q{i} = e` is compiled into a qubit
+`≠ i` – another argument, the `FALSE`/`TRUE` qubit, an ancilla – `q{i}` is re-mapped onto it and, the
+names being distinct, never mapped back.) -/
+theorem accepted_xonly (simp : BExp → BExp) (K : Kernel) (hK : K.Sound) (K4 : Kernel4) (q : Quirks)
+    (n : Nat) (gs : List AGate) (secs : List Section) (hdec : decompile q K n gs = .ok secs)
+    (s : Section) (hmem : s ∈ secs) (choices : List Nat) (r : SecResult)
+    (hr : resynth n (simplifySection simp K4 s) choices = .ok r)
+    (ha : accept Quirks.none n s r = true) : xonly n (simplifySection simp K4 s) r.gates = true :=
+  stable_xonly (simplifySection_keysOK hK (decompile_exps hdec s hmem) simp K4) hr (accept_stable ha)
+
+/-- **accepted_section_ok**: with a meaning-preserving simplifier, every re-synthesis the repaired
+splice test accepts has the classical action of the section it replaces -/
+theorem accepted_section_ok (simp : BExp → BExp) (hs : SimpSound simp) (K : Kernel) (hK : K.Sound)
+    (K4 : Kernel4) (hK4 : K4.Sound) (q : Quirks) (n : Nat) (gs : List AGate) (secs : List Section)
+    (hdec : decompile q K n gs = .ok secs) (s : Section) (hmem : s ∈ secs) (choices : List Nat)
+    (r : SecResult) (hr : resynth n (simplifySection simp K4 s) choices = .ok r)
+    (ha : accept Quirks.none n s r = true) : SectionOK n s.gates r.gates :=
+  xonly_splice_ok simp hs K hK K4 hK4 q n gs secs hdec s hmem r.gates
+    (accepted_xonly simp K hK K4 q n gs secs hdec s hmem choices r hr ha)
+
+/-- **C12_full** (the whole property of the repaired model): for every circuit built by
+`QCircuit.append` (distinct wires per gate), every meaning-preserving `simplify_logic`, all sound
+constructor kernels and all ancilla choices, every successful run of `circuit_boolean_optimizer`
+returns a circuit with the same action (`SameUnitary`), no more gates, on the qubits of the input -/
+theorem C12_full (simp : BExp → BExp) (hs : SimpSound simp) (K : Kernel) (hK : K.Sound)
+    (K4 : Kernel4) (hK4 : K4.Sound) (choices : Section → List Nat) (n : Nat) (gs out : List AGate)
+    (hwf : ∀ g ∈ gs, g.wires.Nodup)
+    (h : optimize Quirks.none K K4 simp choices n gs = .ok out) : Holds n gs out := by
+  cases hdec : decompile Quirks.none K n gs with
+  | error e =>
+    unfold optimize optimizeWith at h
+    rw [hdec] at h; cases h
+  | ok secs =>
+    refine C12_xonly_partial simp hs K hK K4 hK4 Quirks.none choices n gs out secs hwf hdec ?_ h
+    unfold xonlyRun
+    rw [List.all_eq_true]
+    intro s hmem
+    cases hr : resynSection n (simplifySection simp K4) choices s with
+    | error e => rfl
+    | ok r =>
+      dsimp only
+      cases ha : accept Quirks.none n s r with
+      | false => rfl
+      | true =>
+        simp only [Bool.not_true, Bool.false_or]
+        exact accepted_xonly simp K hK K4 Quirks.none n gs secs hdec s hmem (choices s) r hr ha
+
+/-- **repaired_validated**: the per-instance validator of `C12_partial` never fails on the repaired
+model (it is still run on every case as a cross-check of model and proof) -/
+theorem repaired_validated (simp : BExp → BExp) (hs : SimpSound simp) (K : Kernel) (hK : K.Sound)
+    (K4 : Kernel4) (hK4 : K4.Sound) (q : Quirks) (choices : Section → List Nat) (n : Nat)
+    (gs : List AGate) (secs : List Section) (hdec : decompile q K n gs = .ok secs) :
+    validated Quirks.none n (resynSection n (simplifySection simp K4) choices) secs = true := by
+  unfold validated
+  rw [List.all_eq_true]
+  intro s hmem
+  cases hr : resynSection n (simplifySection simp K4) choices s with
+  | error e => rfl
+  | ok r =>
+    dsimp only
+    cases ha : accept Quirks.none n s r with
+    | false => rfl
+    | true =>
+      simp only [Bool.not_true, Bool.false_or]
+      exact sectionOKb_complete
+        (accepted_section_ok simp hs K hK K4 hK4 q n gs secs hdec s hmem (choices s) r hr ha)
+
+/-- `C12_statement` holds -/
+theorem C12_statement_holds : C12_statement := fun simp hs choices n gs out hwf h =>
+  C12_full simp hs rawKernel rawKernel_sound rawKernel4 rawKernel4_sound choices n gs out hwf h
+
+/-- a simplifier that knows `q0 ^ (q0 ^ q1) = q1` and leaves everything else alone -/
+def cxcxSimp : BExp → BExp := fun e =>
+  if e == .xor [.sym "q0", .xor [.sym "q0", .sym "q1"]] then .sym "q1" else e
+
+/-- the hypotheses of `C12_full` are satisfiable with splices that are accepted and change the circuit:
+`cxcxSimp` preserves meaning; in `cx(0,1) cx(0,1) h(0) x(1)` the first section simplifies to `q1 = q1` and is
+replaced by no gate, the second (`q1 = ~q1`) by its X gate -/
+example : SimpSound cxcxSimp ∧
+    (optimize Quirks.none rawKernel rawKernel4 cxcxSimp (fun _ => []) 2
+      [⟨.CX, [0, 1], .none, 0⟩, ⟨.CX, [0, 1], .none, 0⟩, ⟨.H, [0], .none, 0⟩, ⟨.X, [1], .none, 0⟩]).toOption.map
+      (fun l => l.map (fun g => (g.cls, g.wires))) = some [(.H, [0]), (.X, [1])] := by
+  refine ⟨?_, by decide +kernel⟩
+  intro ρ e
+  unfold cxcxSimp
+  split
+  · next h =>
+    rw [bexp_eq_of_beq h]
+    simp only [BExp.eval, evalXor]
+    cases ρ "q0" <;> cases ρ "q1" <;> rfl
+  · rfl
 
 end QV.C12
